@@ -348,4 +348,28 @@ CHECKS = {
         note="Not decided: timing of the stop signal; arguments user code "
              "passes through *args. Trusted: role/exemption tables in "
              "roles.py and rules/C18.py."),
+    "C09": dict(
+        technique="CFG must-pass-through for the fill protocol, "
+                  "Fourier-Motzkin proof of the announced block count "
+                  "(symbolic divisor), linear-constraint abstract "
+                  "interpretation + symbolic cursor advance for the data "
+                  "loop and the id counter, bit provenance of the command "
+                  "words, dominance facts on the retry loop, LINK",
+        text="Every binary's fill passes start -> core selects (sorted "
+             "region list of that binary's targets) -> data -> end inside "
+             "the per-binary loop, with one fresh id and one forward/retry "
+             "word (R1). Announced count = ceil(len/scp_data_length) for "
+             "the divisor _send_ffd slices with; blocks 1..buffer bytes, "
+             "numbered from 0 by +1, cursor and address advance by the "
+             "block size, loop ends at the end of the binary (R2). Id in "
+             "1..126 sent doubled; id/count/block/size/app id/flags at "
+             "their documented bits (R3). Retry loop bounded; re-fills only "
+             "`unloaded` under the caller's app id with wait=True; "
+             "still-missing sets re-created per chip / binary / attempt; "
+             "error iff something remains; start iff not wait, after "
+             "success (R4). Stdlib names on the path exist (R5).",
+        note="Not decided: that count == requested really means THESE cores "
+             "loaded (it does not when cores of the same app id already "
+             "wait - an observation, not a code shape); reassembly on the "
+             "machine; block count < 256. Assumes buffer size >= 4."),
 }
